@@ -214,9 +214,23 @@ CLAIMS = [
                 'initial kernels are not covered. Bounded shapes.',
         'design_ref': 'DESIGN.md section 4 C10',
     },
+    {
+        'property_id': 'C16',
+        'level': 'other',
+        'technique': 'contract-based deductive verification of totality / finiteness for accepted configurations (definedness '
+                     'obligations on the symbolic results of the real constraint and evaluation code), plus a bounded-exhaustive '
+                     'evaluation of the validators on enumerated constructor arguments',
+        'text': 'Accepted configurations: real projection and evaluation do not raise and every result element is defined (every '
+                'reachable reciprocal non-zero unless masked, log/root arguments in domain) for ALL weights and inputs. Listed '
+                'invalid combinations raise ValueError and only ValueError is raised (bounded enumeration, labelled bounded). '
+                'Synonymous spellings give structurally identical behaviour. Two known findings, one fix: commit.',
+        'note': 'Trusted: operator contracts, Keras stub, z3/cvc5, reals for floats (overflow out of scope). The validator part is an '
+                'exhaustive evaluation inside small argument domains, not a proof; premade verify_config and rtl_lib are not enumerated.',
+        'design_ref': 'DESIGN.md section 4 C16',
+    },
 ]
 
 _PENDING = 'check not built yet in this session (planned, see DESIGN.md section 4); not claimed until its check exists'
 NOT_APPLICABLE = [
-    {'property_id': 'C%02d' % i, 'reason': _PENDING} for i in range(2, 21) if i not in (2, 4, 5, 6, 7, 8, 9, 10, 12, 13, 14, 15, 19, 20)
+    {'property_id': 'C%02d' % i, 'reason': _PENDING} for i in range(2, 21) if i not in (2, 4, 5, 6, 7, 8, 9, 10, 12, 13, 14, 15, 16, 19, 20)
 ]
